@@ -282,6 +282,8 @@ func checkC06(p *Program, r *Report) {
 		checkCarry(p, r, m)
 	}
 	checkDelegatedStates(p, r, models)
+	checkRunLengthIndependence(p, r, models)
+	checkBufferRefill(p, r, models)
 	r.Floor("R06.1", "stateful kernels", nStateful, 17)
 	r.Floor("R06.3", "wrappers", nWrap, 41)
 	checkPackExtract(p, r, models)
@@ -1261,4 +1263,341 @@ func checkDelegatedStates(p *Program, r *Report, models []*Model) {
 		}
 	}
 	r.Analysed["R06.5 delegated state arguments"] = n
+}
+
+
+// checkRunLengthIndependence (R06.6): inside a timestep nothing depends on how long the run is. A value derived from
+// the length of an input or output series may bound the time loop itself, and may size buffers, but it must not
+// reach — as data or as a branch/loop condition — anything computed inside the time loop that influences outputs
+// or returned states: a split run has other lengths, so such a step would differ between the split and the unsplit
+// run.
+func checkRunLengthIndependence(p *Program, r *Report, models []*Model) {
+	r.Rule("R06.6", "run-length independence: within the body of a kernel's time loop no value that influences outputs or returned states is derived from the length of an input/output series (other than the loop's own `t < n` condition and buffer allocation sizes); what a timestep does cannot depend on how many timesteps the call was given")
+	n := 0
+	for _, m := range models {
+		k := m.Kernel
+		if k == nil || len(m.States) == 0 {
+			continue
+		}
+		loops := timeLoops(k)
+		if len(loops) != 1 {
+			// no time loop, or a kernel that passes over the series several times (Lag: release, then refill the
+			// buffer from the tail of the series — that refill is defined relative to the end of the run)
+			continue
+		}
+		n++
+		key := m.RelPkg + "." + k.Name()
+		nIn := len(m.Inputs)
+		isSeries := func(v ssa.Value) bool {
+			prm, ok := origin1(v).(*ssa.Parameter)
+			if !ok || !isNDType(prm.Type()) {
+				return false
+			}
+			for i, q := range k.Params {
+				if q == prm {
+					// inputs, or outputs passed as parameters (the trailing ND parameters); tables sit in between
+					return i < nIn || i >= nIn+len(m.States)+len(m.Params)
+				}
+			}
+			return false
+		}
+		// taint: forward slice from series lengths (not through allocations)
+		taint := map[ssa.Value]ssa.Value{} // value → the length call it derives from
+		var work []ssa.Value
+		for _, c := range callsIn(k) {
+			cv, ok := c.(*ssa.Call)
+			if !ok {
+				continue
+			}
+			nm := callName(c.Common())
+			if nm != "Len1" && nm != "Len" && nm != "Len2" && nm != "Len3" {
+				continue
+			}
+			if rv := recvOf(c.Common()); rv != nil && isSeries(rv) {
+				taint[cv] = cv
+				work = append(work, cv)
+			}
+		}
+		for len(work) > 0 {
+			v := work[len(work)-1]
+			work = work[:len(work)-1]
+			for _, ref := range refs(v) {
+				switch x := ref.(type) {
+				case *ssa.MakeSlice, *ssa.Alloc, *ssa.Slice:
+					continue // sizes a buffer; the buffer's contents are not thereby derived from the length
+				case *ssa.Store:
+					if a, ok := x.Addr.(*ssa.Alloc); ok && x.Val == v {
+						for _, r2 := range refs(a) {
+							if ld, ok := r2.(*ssa.UnOp); ok && ld.Op == token.MUL {
+								if _, seen := taint[ld]; !seen {
+									taint[ld] = taint[v]
+									work = append(work, ld)
+								}
+							}
+						}
+					}
+				case ssa.Value:
+					if _, seen := taint[x]; !seen {
+						taint[x] = taint[v]
+						work = append(work, x)
+					}
+				}
+			}
+		}
+		bad := false
+		ord := 0
+		for _, l := range loops {
+			hdrCond := ssa.Value(nil)
+			if iff, ok := l.Header.Instrs[len(l.Header.Instrs)-1].(*ssa.If); ok {
+				hdrCond = iff.Cond
+			}
+			for _, b := range k.Blocks {
+				if !l.Blocks[b] {
+					continue
+				}
+				for _, ins := range b.Instrs {
+					v, ok := ins.(ssa.Value)
+					if !ok || v == hdrCond {
+						continue
+					}
+					if b == l.Header && hdrCond != nil && dependsOn(hdrCond, func(x ssa.Value) bool { return x == v }, map[ssa.Value]bool{}) && len(refs(v)) == 1 {
+						continue // part of the loop's own bound expression
+					}
+					src, tainted := taint[v]
+					if !tainted {
+						continue
+					}
+					// only the first tainted value of a chain inside the loop is reported: one whose tainted operand
+					// was computed outside this loop, or that is itself the length call
+					first := v == src
+					for _, op := range ins.Operands(nil) {
+						if *op == nil {
+							continue
+						}
+						if _, t := taint[*op]; t {
+							if oi, isIns := (*op).(ssa.Instruction); !isIns || !l.Blocks[oi.Block()] {
+								first = true
+							}
+						}
+					}
+					if !first {
+						continue
+					}
+					if _, isPhi := v.(*ssa.Phi); isPhi && b == l.Header {
+						continue
+					}
+					if !influences(v) {
+						continue
+					}
+					ord++
+					bad = true
+					r.Fail("R06.6", fmt.Sprintf("%s:length-dependent#%d", key, ord), p.Pos(ins.Pos()), fmt.Sprintf("inside the time loop of %s a value that influences outputs or states is derived from the series length (%s at %s): the same timestep is computed differently in a shorter call, so a split run cannot reproduce the unsplit one", k.Name(), src.Name(), p.Pos(src.Pos())))
+				}
+			}
+		}
+		if !bad {
+			r.OK("R06.6", key+": nothing inside a timestep depends on the length of the run")
+		}
+	}
+	r.Floor("R06.6", "stateful kernels with one time loop", n, 8)
+}
+
+
+// countingLoop: `for i := lo; i < hi; i++` → (i, lo, hi).
+func countingLoop(l *Loop) (*ssa.Phi, ssa.Value, ssa.Value, bool) {
+	h := l.Header
+	iff, ok := h.Instrs[len(h.Instrs)-1].(*ssa.If)
+	if !ok || !l.Blocks[h.Succs[0]] {
+		return nil, nil, nil, false
+	}
+	bo, ok := iff.Cond.(*ssa.BinOp)
+	if !ok || bo.Op != token.LSS {
+		return nil, nil, nil, false
+	}
+	phi, ok := bo.X.(*ssa.Phi)
+	if !ok || phi.Block() != h {
+		return nil, nil, nil, false
+	}
+	var lo ssa.Value
+	for i, e := range phi.Edges {
+		if l.Blocks[h.Preds[i]] {
+			inc, ok := e.(*ssa.BinOp)
+			if !ok || inc.Op != token.ADD || inc.X != ssa.Value(phi) {
+				return nil, nil, nil, false
+			}
+			if c, ok := constInt(inc.Y); !ok || c != 1 {
+				return nil, nil, nil, false
+			}
+		} else {
+			if lo != nil && lo != e {
+				return nil, nil, nil, false
+			}
+			lo = e
+		}
+	}
+	if lo == nil {
+		return nil, nil, nil, false
+	}
+	return phi, lo, bo.Y, true
+}
+
+// checkBufferRefill (R06.7): a state buffer that is rewritten by a sequence of counting loops is rewritten without a
+// gap or an overlap: the first loop's index range starts at 0 and each further loop's range starts where the
+// previous one ended, as linear forms over the kernel's own quantities (lag, series length, …).
+func checkBufferRefill(p *Program, r *Report, models []*Model) {
+	r.Rule("R06.7", "state buffers are refilled seamlessly: where a kernel rewrites a slice-typed state parameter with counting loops `buf[i+c] = …`, the index range written by the first loop of a branch starts at 0, and the range of each following loop either starts a new pass at 0 or starts exactly where the previous one ended (compared as linear forms; equal lengths are not assumed)")
+	n := 0
+	for _, m := range models {
+		k := m.Kernel
+		if k == nil || len(m.States) == 0 {
+			continue
+		}
+		key := m.RelPkg + "." + k.Name()
+		// atoms of the linear forms: Len calls on the same receiver are one atom
+		atomIDs := map[string]int{}
+		comp := func(v ssa.Value) (int, bool) {
+			var name string
+			switch x := v.(type) {
+			case *ssa.Call:
+				nm := callName(x.Common())
+				if (nm == "Len1" || nm == "Len") && recvOf(x.Common()) != nil {
+					name = fmt.Sprintf("len:%p", origin1(recvOf(x.Common())))
+					if nm == "Len" {
+						if c, ok := constInt(callArgs(x.Common())[0]); ok {
+							name += fmt.Sprint(":", c)
+						}
+					}
+				} else if nm == "len" && len(x.Common().Args) == 1 {
+					name = fmt.Sprintf("len:%p", origin1(x.Common().Args[0]))
+				} else {
+					name = fmt.Sprintf("v:%p", v)
+				}
+			case *ssa.BinOp:
+				if x.Op == token.ADD || x.Op == token.SUB {
+					return 0, false
+				}
+				name = fmt.Sprintf("v:%p", v)
+			case *ssa.Convert:
+				if b, ok := x.X.Type().Underlying().(*types.Basic); ok && b.Info()&types.IsInteger != 0 {
+					return 0, false
+				}
+				name = fmt.Sprintf("v:%p", origin1(x.X)) // int(timeLag): one atom per converted source
+			case *ssa.Parameter, *ssa.Phi, *ssa.Extract:
+				name = fmt.Sprintf("v:%p", v)
+			default:
+				return 0, false
+			}
+			id, ok := atomIDs[name]
+			if !ok {
+				id = len(atomIDs) + 1
+				atomIDs[name] = id
+			}
+			return id, true
+		}
+		loops := findLoops(k)
+		for _, buf := range k.Params {
+			sl, ok := buf.Type().Underlying().(*types.Slice)
+			if !ok {
+				continue
+			}
+			if b, ok := sl.Elem().Underlying().(*types.Basic); !ok || b.Info()&types.IsFloat == 0 {
+				continue
+			}
+			type wr struct {
+				l      *Loop
+				lo, hi linForm
+				pos    token.Pos
+			}
+			var ws []wr
+			for _, l := range loops {
+				phi, lo, hi, ok := countingLoop(l)
+				if !ok {
+					continue
+				}
+				for b := range l.Blocks {
+					if innermostLoop(loops, b) != l {
+						continue
+					}
+					for _, ins := range b.Instrs {
+						st, ok := ins.(*ssa.Store)
+						if !ok {
+							continue
+						}
+						ia, ok := st.Addr.(*ssa.IndexAddr)
+						if !ok || origin1(ia.X) != ssa.Value(buf) {
+							continue
+						}
+						// idx = i + c
+						phiID := -1
+						comp2 := func(v ssa.Value) (int, bool) {
+							if v == ssa.Value(phi) {
+								return 0, true
+							}
+							return comp(v)
+						}
+						_ = phiID
+						idx := linEval(ia.Index, comp2, 0)
+						if !idx.ok || idx.coef[0] != 1 {
+							continue
+						}
+						sub := func(at ssa.Value) linForm {
+							a := linEval(at, comp, 0)
+							if !a.ok {
+								return linForm{}
+							}
+							out := linForm{c: idx.c + a.c, coef: map[int]int64{}, ok: true}
+							for kk, vv := range idx.coef {
+								if kk != 0 {
+									out.coef[kk] += vv
+								}
+							}
+							for kk, vv := range a.coef {
+								out.coef[kk] += vv
+							}
+							return out
+						}
+						ws = append(ws, wr{l: l, lo: sub(lo), hi: sub(hi), pos: st.Pos()})
+					}
+				}
+			}
+			if len(ws) == 0 {
+				continue
+			}
+			sort.Slice(ws, func(i, j int) bool { return ws[i].l.Header.Index < ws[j].l.Header.Index })
+			for i, w := range ws {
+				n++
+				okey := fmt.Sprintf("%s:%s:refill#%d", key, buf.Name(), i+1)
+				if !w.lo.ok || !w.hi.ok {
+					r.Undecided("R06.7", okey, p.Pos(w.pos), "the index range written by this loop is not a linear form")
+					continue
+				}
+				// nearest earlier writer loop whose header dominates this one (same branch arm)
+				prev := -1
+				for j := i - 1; j >= 0; j-- {
+					if ws[j].l != w.l && ws[j].l.Header.Dominates(w.l.Header) && !ws[j].l.Blocks[w.l.Header] {
+						prev = j
+						break
+					}
+				}
+				if prev < 0 {
+					zero := linForm{coef: map[int]int64{}, ok: true}
+					if w.lo.eq(zero) {
+						r.OK("R06.7", fmt.Sprintf("%s: first rewrite of `%s` in its branch starts at index 0", key, buf.Name()))
+					} else {
+						r.Fail("R06.7", okey, p.Pos(w.pos), fmt.Sprintf("the first loop that rewrites the state buffer `%s` in this branch starts at index %s, not 0: the front of the buffer keeps stale values", buf.Name(), w.lo))
+					}
+					continue
+				}
+				zero := linForm{coef: map[int]int64{}, ok: true}
+				if w.lo.eq(zero) {
+					r.OK("R06.7", fmt.Sprintf("%s: rewrite %d of `%s` is a new pass from index 0", key, i+1, buf.Name()))
+				} else if ws[prev].hi.eq(w.lo) {
+					r.OK("R06.7", fmt.Sprintf("%s: rewrite %d of `%s` continues where the previous loop ended", key, i+1, buf.Name()))
+				} else {
+					r.Fail("R06.7", okey, p.Pos(w.pos), fmt.Sprintf("the state buffer `%s` is refilled with a gap or an overlap: the previous loop wrote up to index %s, this one starts at %s (#k are the kernel's own quantities: lag, series length); only for particular lengths do the two ranges meet, otherwise values land in the wrong slots or past the end", buf.Name(), ws[prev].hi, w.lo))
+				}
+			}
+		}
+	}
+	r.Floor("R06.7", "state-buffer rewrite loops", n, 2)
 }
